@@ -58,8 +58,26 @@ def effect_calls(w_abs):
     return out
 
 
+def _top_level_args(text):
+    """Number of comma-separated arguments at nesting depth 0 (strings respected)."""
+    depth, n, in_str = 0, 1, False
+    for i, ch in enumerate(text):
+        if in_str:
+            if ch == "\"" and text[i - 1] != "\\":
+                in_str = False
+        elif ch == "\"":
+            in_str = True
+        elif ch in "([{":
+            depth += 1
+        elif ch in ")]}":
+            depth -= 1
+        elif ch == "," and depth == 0:
+            n += 1
+    return n
+
+
 POSITIONS = ["toplevel", "fun", "closure", "method", "loop", "matcharm", "arg", "after_stmts", "if", "nested_fun", "test",
-             "callback", "while_cond", "struct_field"]
+             "callback", "while_cond", "struct_field", "hof_value", "after_budget"]
 
 
 def place(call, position, rng):
@@ -89,6 +107,17 @@ def place(call, position, rng):
         return "", f"{pre} {pr}"
     if position == "if":
         return "", f"if 1 < 2 {{ {pr} }} else {{ println(\"no\") }}"
+    if position == "hof_value":
+        # the built-in itself, as a function value, handed to a prelude function written in Garden:
+        # the call then happens in a standard-library frame
+        m = __import__("re").match(r"^([A-Za-z_:]+)\((.*)\)$", call)
+        if m and m.group(2) and _top_level_args(m.group(2)) == 1:
+            return "", f"let rs = [{m.group(2)}].map({m.group(1)}) println(\"RESULT:\" ^ string_repr(rs))"
+        return "", f"let rs = [1].map(fun(_) {{ {call} }}) println(\"RESULT:\" ^ string_repr(rs))"
+    if position == "after_budget":
+        # the call site lies beyond the sandbox's step budget: the run must end with the limit error
+        # (or the refusal), and whatever the runner does about the exhausted budget, nothing may happen
+        return "", f"let hb = 0 while hb < 16000 {{ hb += 1 }} {pr}"
     if position == "callback":
         # called from inside a prelude function written in Garden
         return "", f"let rs = [1].map(fun(_) {{ {call} }}) println(\"RESULT:\" ^ string_repr(rs))"
@@ -248,8 +277,9 @@ class C24:
             interrupted = final is not None and final.get("error") == "Interrupted"
             if case["fault"] and (interrupted or not reached):
                 pass  # the Ctrl-C won the race; only the absence of effects is required
-            elif case["kind"] == "pure":
-                pass  # allowed in the sandbox; only the absence of effects is required
+            elif case["kind"] == "pure" or case["position"] == "after_budget":
+                pass  # (pure: allowed in the sandbox; after_budget: the step limit ends the run first) only the
+                # absence of effects is required
             elif not res["killed"]:
                 if final is None or final.get("error") != SANDBOX_MSG:
                     if case["position"] == "test":
@@ -274,7 +304,8 @@ class C24:
             else:
                 t = d.get("tests", {}).get("effect_test")
                 reached = t is not None
-                if t is not None and not (case["fault"] and t.get("description") == "interrupted") and case["kind"] != "pure":
+                if t is not None and not (case["fault"] and t.get("description") == "interrupted") and case["kind"] != "pure" \
+                        and case["position"] != "after_budget":
                     if t.get("description") != "sandboxed":
                         v.append(("not-refused", f"test verdict {t} instead of `sandboxed`"))
         return reached, v
